@@ -123,7 +123,7 @@ def b_len(ex, pos, kws, st):
     pathk = z3.And(M.is_Ref(z), M.rcls(z) == ct.id("PathHolder"))
     sized = z3.Or(M.is_StrV(z), M.is_BytesV(z), seqk, mapk, pathk)
     out = []
-    for s, ok in ex.branch(st, sized):
+    for s, ok in ex.branch(st, sized, "TypeError", "len()"):
         if not ok:
             out.append((s, Raised("TypeError", None, "object has no len()")))
         else:
@@ -189,12 +189,36 @@ def b_isclose(ex, pos, kws, st):
     absz = M.real_of(ex.term(abs_, st)) if abs_ is not None else None
     _trust(ex, "math.isclose over reals + IEEE specials (rel_tol 1e-9, abs_tol 0 by default)")
     out = []
-    for s, ok in ex.branch(st, z3.And(M.is_num(za), M.is_num(zb))):
+    for s, ok in ex.branch(st, z3.And(M.is_num(za), M.is_num(zb)), "TypeError", "isclose"):
         if not ok:
             out.append((s, Raised("TypeError", None, "isclose needs real numbers")))
         else:
             out.append((s, T(M.BoolV(M.isclose_f(za, zb, relz, absz)), "bool")))
     return out
+
+
+def _fpred(ex, pos, st, name, pred):
+    z = ex.term(pos[0], st)
+    _trust(ex, f"math.{name}: IEEE classification of a real number")
+    out = []
+    for s, ok in ex.branch(st, M.is_num(z), "TypeError", f"math.{name}"):
+        if not ok:
+            out.append((s, Raised("TypeError", None, f"math.{name} of a non-number")))
+        else:
+            out.append((s, T(M.BoolV(pred(z)), "bool")))
+    return out
+
+
+def b_isfinite(ex, pos, kws, st):
+    return _fpred(ex, pos, st, "isfinite", M.is_finite)
+
+
+def b_isnan(ex, pos, kws, st):
+    return _fpred(ex, pos, st, "isnan", M.is_FNanV)
+
+
+def b_isinf(ex, pos, kws, st):
+    return _fpred(ex, pos, st, "isinf", M.is_FInfV)
 
 
 def b_max(ex, pos, kws, st):
@@ -225,7 +249,7 @@ def b_round(ex, pos, kws, st):
     z = ex.term(pos[0], st)
     if len(pos) == 1:
         out = []
-        for s, ok in ex.branch(st, M.is_num(z)):
+        for s, ok in ex.branch(st, M.is_num(z), "TypeError", "round()"):
             if not ok:
                 out.append((s, Raised("TypeError", None, "round of non-number")))
                 continue
@@ -233,15 +257,15 @@ def b_round(ex, pos, kws, st):
                 if isint:
                     out.append((s2, T(M.IntV(M.int_of(z)), "int")))
                     continue
-                for s3, nan in ex.branch(s2, M.is_FNanV(z)):
-                    if nan:
-                        out.append((s3, Raised("ValueError", None, "cannot convert float NaN to integer")))
+                for s3, fin in ex.branch(s2, M.is_FloatV(z), "OverflowError/ValueError", "round() of a float"):
+                    if fin:
+                        out.append((s3, T(M.IntV(M.rnd(M.fval(z))), "int")))
                         continue
-                    for s4, inf in ex.branch(s3, M.is_FInfV(z)):
-                        if inf:
-                            out.append((s4, Raised("OverflowError", None, "cannot convert float infinity to integer")))
+                    for s4, nan in ex.branch(s3, M.is_FNanV(z)):
+                        if nan:
+                            out.append((s4, Raised("ValueError", None, "cannot convert float NaN to integer")))
                         else:
-                            out.append((s4, T(M.IntV(M.rnd(M.fval(z))), "int")))
+                            out.append((s4, Raised("OverflowError", None, "cannot convert float infinity to integer")))
         return out
     # round(x, ndigits) on floats: result within half a unit of the last place
     nd = M.int_of(ex.term(pos[1], st))
@@ -322,7 +346,7 @@ def b_chr(ex, pos, kws, st):
     i = M.int_of(z)
     _trust(ex, "chr(i) for 0 <= i < 0x110000 is the one-character string of code point i")
     out = []
-    for s, ok in ex.branch(st, z3.And(0 <= i, i < 0x110000)):
+    for s, ok in ex.branch(st, z3.And(0 <= i, i < 0x110000), "ValueError", "chr()"):
         if ok:
             out.append((s, T(M.StrV(z3.StrFromCode(i)), "str")))
         else:
@@ -362,6 +386,8 @@ def b_set(ex, pos, kws, st):
         return [(st, ex.new_cell(st, DictC(ex.empty_dict_term(st, "S"))))]
     (v,) = pos
     h = ex.hint_of(v, st)
+    if h is None and isinstance(v, T):
+        h = ex.refine_hint(v, st, ("str", "list", "tuple", "dict", "set"))
     z = ex.seq_snap(v, st) if h in ("list", "tuple") else ex.term(v, st) if not isinstance(v, CellRef) else ex.dict_snap(v, st)
     r = M.fresh("set")
     x = z3.Const("x", Obj)
@@ -406,11 +432,11 @@ def b_re_search(ex, pos, kws, st):
     _trust(ex, "re.search(p, s): uninterpreted predicate re_search shared by code and specification; "
                "raises re.error iff not re_ok(p); TypeError unless s is a str")
     out = []
-    for s, ok in ex.branch(st, z3.And(M.is_StrV(zp), M.is_StrV(zs))):
+    for s, ok in ex.branch(st, z3.And(M.is_StrV(zp), M.is_StrV(zs)), "TypeError", "re.search"):
         if not ok:
             out.append((s, Raised("TypeError", None, "re.search operands")))
             continue
-        for s2, comp in ex.branch(s, M.re_ok(M.sval(zp))):
+        for s2, comp in ex.branch(s, M.re_ok(M.sval(zp)), "re.error", "re.search"):
             if not comp:
                 out.append((s2, Raised("re.error", T(M.fresh("reerr"), "re.error"), "re.search")))
             else:
@@ -562,7 +588,8 @@ def b_random_randint(ex, pos, kws, st):
             out.append((s, Raised("TypeError", None, "randint of non-int")))
             continue
         ia, ib = M.int_of(a), M.int_of(b)
-        for s2, empty in ex.branch(s, ia > ib):
+        for s2, nonempty in ex.branch(s, ia <= ib, "ValueError", "random.randint"):
+            empty = not nonempty
             if empty:
                 out.append((s2, Raised("ValueError", None, "empty range for randint")))
             else:
@@ -609,8 +636,8 @@ def b_random_choice(ex, pos, kws, st):
     else:
         raise Unsupported(f"random.choice on {seq!r}")
     out = []
-    for s, empty in ex.branch(st, n == 0):
-        if empty:
+    for s, nonempty in ex.branch(st, n > 0, "IndexError", "random.choice"):
+        if not nonempty:
             out.append((s, Raised("IndexError", None, "choice from empty sequence")))
         else:
             i = _rng_draw(ex, s, M.I, "idx")
@@ -688,3 +715,6 @@ def construct_builtin(ex, cname: str, pos, kws, kwrest, st: State, node) -> List
         st.assume(M.is_Ref(r), M.rcls(r) == ex.ct.id("timedelta"))
         return [(st, T(r, "timedelta"))]
     raise Unsupported(f"construction of {cname}")
+
+
+from .loops import b_all, b_any, b_enumerate, b_range  # noqa: E402,F401
